@@ -18,6 +18,7 @@ import re
 from pathlib import Path
 
 from harness.common import VERIF, Ctx, cbool, clist, cn, coq_make, copt, cstr, cz, parallel_workers, run_worker
+from harness.translators import c01_ingest as tr_ingest
 from harness.translators import template as tr
 
 FMT_ID = {"yaml": 0, "json": 1, "pickle": 2}
@@ -310,11 +311,6 @@ def oracle(ctx: Ctx, h, res, origin: str):
                         e["stored"] = False
                         if op["purge"]:
                             e["registered"] = False
-        else:
-            if kind == "ingest" and op.get("reuse") is not None:
-                e = book[op["repo"]].get(op["k"])
-                if e is not None and e["stored"]:
-                    e["hit"] = True       # a refused re-ingest was aimed at this stored dataset
         # --- taint: stored datasets of one repository that share an artifact path
         for R in ("A", "B"):
             by_uri = {}
@@ -362,8 +358,6 @@ def oracle(ctx: Ctx, h, res, origin: str):
                 for what, msg in bad:
                     if e["taint"]:
                         sig = f"template-collision:{e['taint']}"
-                    elif e["hit"] and what == "content":
-                        sig = "refused-reingest-destroys-artifact"
                     else:
                         sig = f"{what}:{kind}:{d.get('get', ['?', '?'])[1] if what == 'content' else 'registry'}"
                         sig = re.sub(r"-?\d+", "N", sig)
@@ -373,8 +367,12 @@ def oracle(ctx: Ctx, h, res, origin: str):
                 if isinstance(t.get("found"), int) and t["found"] >= 0 and "get" in t:
                     e = book[R].get(t["found"])
                     if e is not None and e["stored"] and t["get"][:2] != ["ok", rep[e["payload"]]]:
-                        sig = f"template-collision:{e['taint']}" if e["taint"] else ("refused-reingest-destroys-artifact" if e["hit"] else f"content-via-tag:{kind}")
+                        sig = f"template-collision:{e['taint']}" if e["taint"] else f"content-via-tag:{kind}"
                         fails.append((sig, n, f"step {n}: get through {t['tag']} returned {t['get']} for dataset k={t['found']}"))
+        # --- a refused ingest must not consume the caller's file (transfer="move" included)
+        if not ok and kind == "ingest" and st.get("src_left") is False:
+            fails.append((f"refused-ingest-consumed-source:{st['out']}", n,
+                          f"step {n}: ingest was refused ({st['out']}) but the source file is gone (move={op.get('move')})"))
         # --- a refused operation changes nothing
         if not ok and prev is not None:
             for R in ("A", "B"):
@@ -386,9 +384,7 @@ def oracle(ctx: Ctx, h, res, origin: str):
                                   f"step {n}: {kind} was refused ({st['out']}) but repo {R} now holds/registers the dataset(s) k={fresh_ks} it was about"))
                 if before != after or prev[R]["files"] != st[R]["files"]:
                     tainted = any(e["taint"] for e in book[R].values())
-                    if kind == "ingest" and op.get("reuse") is not None:
-                        sig = "refused-reingest-destroys-artifact"
-                    elif tainted:
+                    if tainted:
                         sig = "template-collision:" + next(e["taint"] for e in book[R].values() if e["taint"])
                     else:
                         sig = f"refused-op-changed-state:{kind}:{st['out']}"
@@ -693,6 +689,7 @@ def run(ctx: Ctx):
         "and at the end) after EVERY step; template cases are distinct (dataset type, data ID, run) triples formatted by the real datastore"
     )
     gen_ok = ctx.regen("template", tr.translate)
+    ctx.regen("ingest_guard", tr_ingest.translate)      # Gen/IngestGuardGen.v: does _finishIngest refuse held datasets first?
     props_ok = ctx.build_props(extra_targets=["Model/DatastoreCheck.vo"])
     if not props_ok:
         coq_make(["Model/DatastoreCheck.vo"])
